@@ -737,6 +737,10 @@ fn run_sop_ops(t: &[&str]) -> Option<String> {
     })
 }
 
+fn rnd_show<T: L>(n: usize) -> String {
+    sh(&T::random_n(n))
+}
+
 fn run_inner(t: &[&str]) -> Option<String> {
     match t[0] {
         "canonseq" => {
@@ -792,6 +796,23 @@ fn run_inner(t: &[&str]) -> Option<String> {
                 5 => format!("ok {}", sh(&volute::Lut5::from(v as u32))),
                 6 => format!("ok {}", sh(&volute::Lut6::from(v))),
                 _ => return None,
+            });
+        }
+        "rnd" => {
+            // rnd <D|S> <n> <w0,w1,..|->: random() while a word stream is injected (hook verif_rng);
+            // prints the table and how many injected words were left unread
+            let ty = *t.get(1)?;
+            let n = us(t.get(2)?)?;
+            let words = if *t.get(3)? == "-" { vec![] } else { parse_words(t.get(3)?)? };
+            if ty == "S" && n > 12 {
+                return None;
+            }
+            volute::verif_rng::inject(&words);
+            let r = catch_unwind(AssertUnwindSafe(|| if ty == "S" { with_static!(n, rnd_show, n) } else { rnd_show::<Lut>(n) }));
+            let left = volute::verif_rng::take();
+            return Some(match r {
+                Ok(s) => format!("ok {} left={}", s, left.len()),
+                Err(_) => "panic".to_string(),
             });
         }
         "cube" | "ecube" | "sop" | "esop" | "soes" | "fctor" => return run_sop_ops(t),
